@@ -652,12 +652,14 @@ Definition load_tokens (fuel : nat) (ts : list token) (se : scan_end) : lout :=
   | _ => LErr
   end.
 
+(* run_load is the scanner model followed by load_tokens (F: the fuel unit run_load derives from the text length) *)
 Lemma run_load_tokens s :
-  run_load s = let F := (length s + 10)%nat in load_tokens (4 * F + 20) (fst (scan_str s)) (snd (scan_str s)).
-Proof.
-  unfold run_load, load_tokens, scan_str, init_parser. cbv zeta.
-  destruct (scan_all _ _ _ _ _) as [toks se]. reflexivity.
-Qed.
+  exists F, run_load s =
+            (let '(toks, se) := scan_all str_ops F (4 * F + 20) (init_sc {| si_chars := s; si_look := 0 |}) [] in
+             load_tokens (4 * F + 20) toks se).
+Proof. eexists. unfold run_load, load_tokens, init_parser. cbv zeta. reflexivity. Qed.
+
+
 
 (* events and verdict of the pull parser on the tokens of a JSON text (Parser::next_event loop) *)
 Theorem tokens_parse_all v ts keep se fuel :
@@ -699,3 +701,51 @@ Theorem tokens_load_ordered v ts se fuel :
   json_wf v = true -> json_distinct v = true -> map snd ts = wrap (json_tokens v) -> (length ts + 2 < fuel)%nat ->
   load_tokens fuel ts se = LDocs [yaml_of_json_ordered v].
 Proof. intros Hwf Hd Hm Hf. rewrite <- (yaml_of_json_distinct v Hd). exact (tokens_load v ts se fuel Hwf Hm Hf). Qed.
+
+(* hence: whenever the scanner model delivers the tokens of a JSON value, run_load delivers the value *)
+Theorem text_load_of_tokens s v :
+  json_wf v = true ->
+  (forall F, let '(toks, _) := scan_all str_ops F (4 * F + 20) (init_sc {| si_chars := s; si_look := 0 |}) [] in
+             map snd toks = wrap (json_tokens v) /\ (length toks + 2 < 4 * F + 20)%nat) ->
+  run_load s = LDocs [yaml_of_json v].
+Proof.
+  intros Hwf Hsc. destruct (run_load_tokens s) as [F ->]. specialize (Hsc F).
+  destruct (scan_all _ _ _ _ _) as [toks se]. destruct Hsc as [Hm Hf].
+  exact (tokens_load v toks se _ Hwf Hm Hf).
+Qed.
+
+(* ================= texts: the relation is inhabited as intended; the known finding at the text level ================= *)
+(* the text  [1 ,<LF>"a\né"]  (17 code points) is a serialisation of [1, "a<LF>é"] and loads as that value *)
+Lemma text_example :
+  json_doc_text (JArr [JNum [49]%N; JStr [97;10;233]%N])
+                [91;49;32;44;10;34;97;92;110;92;117;48;48;101;57;34;93]%N.
+Proof.
+  exists [], [91;49;32;44;10;34;97;92;110;92;117;48;48;101;57;34;93]%N, []. repeat split; try reflexivity.
+  apply (jt_arr (JNum [49]%N) [JStr [97;10;233]%N] [49;32;44;10;34;97;92;110;92;117;48;48;101;57;34]%N).
+  apply (et_cons (JNum [49]%N) [] [49]%N [32]%N [JStr [97;10;233]%N] [10;34;97;92;110;92;117;48;48;101;57;34]%N); try reflexivity.
+  - apply jt_num. reflexivity.
+  - apply (et_one (JStr [97;10;233]%N) [10]%N [34;97;92;110;92;117;48;48;101;57;34]%N []); try reflexivity.
+    apply (jt_str [97;10;233]%N [97;92;110;92;117;48;48;101;57]%N).
+    apply st_raw; try reflexivity.
+    apply (st_esc 110%N 10%N); [cbn; tauto|].
+    apply (st_u 48 48 101 57 233)%N; try reflexivity.
+    apply st_nil.
+Qed.
+
+(* the text  {"a":<TAB>1}  is a serialisation of {"a": 1} ... *)
+Lemma tab_text : json_doc_text (JObj [([97]%N, JNum [49]%N)]) [123;34;97;34;58;9;49;125]%N.
+Proof.
+  exists [], [123;34;97;34;58;9;49;125]%N, []. repeat split; try reflexivity.
+  apply (jt_obj ([97]%N, JNum [49]%N) [] [34;97;34;58;9;49]%N).
+  apply (mt_one [97]%N (JNum [49]%N) [] [97]%N [] [9]%N [49]%N []); try reflexivity.
+  - apply st_raw; try reflexivity. apply st_nil.
+  - apply jt_num. reflexivity.
+Qed.
+
+(* ... of nesting depth 1, in the colon-tab class, and the whole model pipeline rejects it *)
+Theorem text_refuted :
+  exists v s, json_doc_text v s /\ (json_depth v < 256)%nat /\ colon_tab Tout s = true /\ run_load s = LErr.
+Proof.
+  exists (JObj [([97]%N, JNum [49]%N)]), [123;34;97;34;58;9;49;125]%N.
+  split; [exact tab_text|]. split; [cbn; lia|]. split; vm_compute; reflexivity.
+Qed.
